@@ -305,7 +305,7 @@ func TestC20(t *testing.T) {
 		fmt.Println("REPLAY case passed")
 		return
 	}
-	ev.Rule("(a) 20 published RGB spaces; (b) rapid triangles inside the chromaticity diagram with area >= 0.01 (a third with primaries sharing coordinates exactly) and every ordered lattice triangle of a 5x5 (thorough 8x8) grid, and white = barycentric mix with weights >= 0.05; (c) rapid 3x3 matrices with entries in [-4,4], |det| >= 1e-3; (d) exactly singular small-integer matrices (zero/repeated column or row, integer linear dependence) and matrices with a repeated or zero column whose entries are decimal fractions or arbitrary floats. an eighth of the rapid cases directly follow a request outside the domain (non-finite or degenerate arguments) whose answer is ignored. non-trivial = generated triangle (not a built-in space) or matrix with condition number > 10")
+	ev.Rule("(a) 20 published RGB spaces; (b) rapid triangles inside the chromaticity diagram with area >= 0.01 (a third with primaries sharing coordinates exactly) and every ordered lattice triangle of a 5x5 (thorough 8x8) grid, and white = barycentric mix with weights >= 0.05; (c) rapid 3x3 matrices with entries in [-4,4], |det| >= 1e-3, a sixth of them structured (rotations, reflections, signed permutations, symmetric, scaled rotations; exact, single precision, seven digits, or perturbed by 1e-10..1e-5); (d) exactly singular small-integer matrices (zero/repeated column or row, integer linear dependence) and matrices with a repeated or zero column whose entries are decimal fractions or arbitrary floats. an eighth of the rapid cases directly follow a request outside the domain (non-finite or degenerate arguments) whose answer is ignored. non-trivial = generated triangle (not a built-in space) or matrix with condition number > 10")
 	ev.Assume("internal/ref row-major Gauss-Jordan algebra")
 	for _, p := range append(append([]Prim(nil), published...), Prim{Name: "sRGB, white Y=5e-4", R: published[0].R, G: published[0].G, B: published[0].B, W: published[0].W, WY: 5e-4},
 		Prim{Name: "sRGB primaries given with their own luminances", R: published[0].R, G: published[0].G, B: published[0].B, W: published[0].W, PY: [3]float32{0.2126, 0.7152, 0.0722}},
@@ -483,6 +483,60 @@ func TestC20(t *testing.T) {
 			c.Exp10 = rapid.IntRange(-12, 12).Draw(rt, "exp10")
 		}
 		c.A = gen("a")
+		if rapid.IntRange(0, 5).Draw(rt, "structured") == 0 {
+			// matrices with structure a shortcut may look for: rotations (a product of three axis rotations), reflections,
+			// permutations with signs, symmetric and diagonal ones - exact, or known only to single precision, to seven
+			// digits, or perturbed by 1e-10..1e-5 in every entry
+			ax, ay, az := rapid.Float64Range(-3.2, 3.2).Draw(rt, "ax"), rapid.Float64Range(-3.2, 3.2).Draw(rt, "ay"), rapid.Float64Range(-3.2, 3.2).Draw(rt, "az")
+			rx := ref.M3{{1, 0, 0}, {0, math.Cos(ax), -math.Sin(ax)}, {0, math.Sin(ax), math.Cos(ax)}}
+			ry := ref.M3{{math.Cos(ay), 0, math.Sin(ay)}, {0, 1, 0}, {-math.Sin(ay), 0, math.Cos(ay)}}
+			rz := ref.M3{{math.Cos(az), -math.Sin(az), 0}, {math.Sin(az), math.Cos(az), 0}, {0, 0, 1}}
+			m := rx.Mul(ry).Mul(rz)
+			switch rapid.IntRange(0, 4).Draw(rt, "structure") {
+			case 1: // reflection
+				for j := 0; j < 3; j++ {
+					m[0][j] = -m[0][j]
+				}
+			case 2: // signed permutation
+				pm := rapid.Permutation([]int{0, 1, 2}).Draw(rt, "sperm")
+				m = ref.M3{}
+				for i2, j := range pm {
+					m[i2][j] = float64(rapid.SampledFrom([]int{1, -1}).Draw(rt, "sign"))
+				}
+			case 3: // symmetric: R D R^T
+				d := ref.M3{{rapid.Float64Range(0.2, 3).Draw(rt, "d0"), 0, 0}, {0, rapid.Float64Range(0.2, 3).Draw(rt, "d1"), 0}, {0, 0, rapid.Float64Range(0.2, 3).Draw(rt, "d2")}}
+				m = m.Mul(d).Mul(m.T())
+			case 4: // a rotation scaled
+				k := rapid.Float64Range(0.3, 3).Draw(rt, "rscale")
+				for i2 := range m {
+					for j := range m[i2] {
+						m[i2][j] *= k
+					}
+				}
+			}
+			switch rapid.IntRange(0, 3).Draw(rt, "precision") {
+			case 1:
+				for i2 := range m {
+					for j := range m[i2] {
+						m[i2][j] = float64(float32(m[i2][j]))
+					}
+				}
+			case 2:
+				for i2 := range m {
+					for j := range m[i2] {
+						m[i2][j] = math.Round(m[i2][j]*1e7) / 1e7
+					}
+				}
+			case 3:
+				e := math.Pow(10, rapid.Float64Range(-10, -5).Draw(rt, "perturb"))
+				for i2 := range m {
+					for j := range m[i2] {
+						m[i2][j] += e * float64(rapid.IntRange(-3, 3).Draw(rt, "pe"))
+					}
+				}
+			}
+			c.A = m
+		}
 		if op == "inverse" {
 			for tries := 0; math.Abs(ref.M3(c.A).Det()) < 1e-3; tries++ {
 				detRedraw++
